@@ -283,7 +283,7 @@ func evalAlias(c *core.Ctx, cs *core.Case) {
 // scanRepo lists package-level variables and exported entry points with reference-typed parameters.
 func scanRepo() (vars []string, refEntries []string) {
 	fset := token.NewFileSet()
-	filepath.Walk("/repo", func(p string, info os.FileInfo, err error) error {
+	filepath.Walk(repoDir(), func(p string, info os.FileInfo, err error) error {
 		if err != nil || info.IsDir() || !strings.HasSuffix(p, ".go") || strings.HasSuffix(p, "_test.go") || strings.Contains(p, "/.git/") {
 			return nil
 		}
